@@ -1,6 +1,6 @@
 #!/bin/bash
 # usage: tools/sweep.sh "C01 C02 ..." "1 2 3" [tier]  -- run checks under several seeds, print non-OK lines
-cd /verif
+cd "$(dirname "$0")/.."
 for s in $2; do
   for c in $1; do
     out=$(VERIF_SEED=$s ./check $c --tier ${3:-quick} 2>&1 | grep -v "^KNOWN-FINDING" | grep -v "^WARNING conda")
